@@ -283,6 +283,17 @@ impl FaultReader {
     }
 }
 
+/// A fault-free reader that, like a socket or a small `BufReader`, may hand out its data in pieces:
+/// whole, or at most 1/3/7 bytes per call (a pure function of the data, so replays agree).
+pub fn chunked_reader(data: Vec<u8>) -> FaultReader {
+    match crate::tape::fnv64(&data) >> 9 & 3 {
+        0 => FaultReader::plain(data),
+        1 => FaultReader::new(data, RMode::Short, usize::MAX, 1, 0),
+        2 => FaultReader::new(data, RMode::Short, usize::MAX, 3, 0),
+        _ => FaultReader::new(data, RMode::Short, usize::MAX, 7, 0),
+    }
+}
+
 impl io::Read for FaultReader {
     fn read(&mut self, buf: &mut [u8]) -> io::Result<usize> {
         self.calls += 1;
